@@ -240,3 +240,48 @@ func VH_C13_holes() {
 	vAssert(ok, "template-evaluates-to-a-string")
 	vAssert(s == want, "template-is-the-concatenation-of-segments-and-hole-string-forms")
 }
+
+// code points at the edges of the UTF-8 encoding and a few that text
+// handling tends to special-case
+var vC13Runes = []rune{0xFFFD, 0xFFFC, 0xFEFF, 0x2028, 0x2029, 0x85, 0xA0, 0x200B, 0x10FFFF, 0xE000, 0xD7FF, 0x80, 0x7FF, 0x800, 0xFFFF, 0x10000, 0x1F3B2, 0x7F, 0x1, 0x301}
+
+func init() {
+	vHarnesses["VH_C13_runes"] = VH_C13_runes
+}
+
+//vh:prop=C13 tiers=quick,thorough sigkeys=rune,style,form budget_s=600 bounds="20 code points at the edges of UTF-8 (U+0080, U+07FF, U+0800, U+D7FF, U+E000, U+FFFD, U+FFFF, U+10000, U+10FFFF) or commonly special-cased (BOM, line / paragraph separators, NEL, NBSP, zero-width space, replacement and object-replacement characters, a combining mark, DEL, U+0001, an emoji) inside a literal in each of the four quote styles, alone, doubled and next to a template hole with an assignment: the value is exactly the text, the assignment takes effect"
+func VH_C13_runes() {
+	r := vC13Runes[vChoice("rune", len(vC13Runes))]
+	q := string(vC13Delims[vChoice("style", 4)])
+	text := "a" + string(r) + "b"
+	src := q + text + q
+	want := text
+	form := vChoice("form", 3)
+	isTpl := q == "`" || q == "\x1e"
+	switch form {
+	case 1:
+		text = string(r) + string(r)
+		src, want = q+text+q, text
+	case 2:
+		if !isTpl {
+			return
+		}
+		src = q + string(r) + "{w1 = 7}" + string(r) + "{% w2 = 8 %}" + q
+		want = string(r) + "7" + string(r) + "8"
+	}
+	vm := vNewVM()
+	err := vm.Run(src)
+	vReach("ran")
+	vAssert(err == nil, "literal-is-accepted")
+	if err != nil {
+		return
+	}
+	vAssert(vm.RestInput == "", "literal-is-consumed-entirely")
+	s, ok := vm.Ret.ReadString()
+	vAssert(ok && s == want, "literal-evaluates-to-exactly-the-text")
+	if form == 2 {
+		v1, ok1 := vm.Attrs.Load("w1")
+		v2, ok2 := vm.Attrs.Load("w2")
+		vAssert(ok1 && ok2 && v1 != nil && v2 != nil && v1.ToString() == "7" && v2.ToString() == "8", "embedded-assignments-take-effect")
+	}
+}
